@@ -5,7 +5,7 @@ HOOK_COMMITS = ["1ba4448", "b817b93"]
 ENGINES = [
     {"name": "m_text", "path": "harness/vtext/src/bin/m_text.rs", "serves_properties": ["C13", "C14", "C19"],
      "kind_free_text": "runtime monitor (in-process, needs hook feature `verif`): drives glas::vfs::Vfs/LineMap and glas::convert against a reference model of an LSP client document (vh::lspmodel) and an LSP semantic-token decoder; exhaustive small-document spaces plus seeded long documents"},
-    {"name": "m_lsp", "path": "harness/vh/src/bin/m_lsp.rs", "serves_properties": ["C13", "C15", "C16"],
+    {"name": "m_lsp", "path": "harness/vh/src/bin/m_lsp.rs", "serves_properties": ["C13", "C15", "C16", "C17"],
      "kind_free_text": "runtime monitor (black box): drives the real release binary `glas --stdio` with generated LSP message sequences (vh::lspclient), observes liveness, exactly-once responses and the server's document text through glas/syntaxTree, judged against a nondeterministic model of acceptable document states"},
     {"name": "m_incr", "path": "harness/vh/src/bin/m_incr.rs", "serves_properties": ["C11"],
      "kind_free_text": "runtime monitor: edit histories over a model workspace with stable FileIds; after every step the long-lived AnalysisHost, a fresh host and a fresh host queried in shuffled order must give equal normal forms; sampled states are re-analysed in a separate process"},
@@ -151,5 +151,12 @@ META = {
                        "Found and repaired: main-loop stall with more in-flight requests than cores, version mixtures through the shared document store, lost and re-ordered diagnostics publications."),
         "design_ref": "DESIGN.md §5 C16",
         "level_note": "Requires the hooked binary for injected delays (falls back to batching only). 'Converges' is judged after 300 ms of silence within a 10 s bound.",
+    },
+    "C17": {
+        "technique": "layout-rule reference model vs. definition / prepareRename / hover answers of the real server on generated on-disk project trees, three opening orders",
+        "level_text": ("Exploration of configurations: ~7x10^3 project trees per quick run (1.3x10^5 definition queries, 6.5x10^4 prepareRename queries) covering registry, transitive-only, diamond and path dependencies, "
+                       "nested module directories, test/ modules, equal module names across packages and a free-standing file, each with a fresh server process. Held on everything observed."),
+        "design_ref": "DESIGN.md §5 C17",
+        "level_note": "Only the dependency closure of the root exists under build/packages (as `gleam` would download it). Import path segments and module-qualifier goto are not judged.",
     },
 }
